@@ -102,8 +102,8 @@ Variable retr : Z -> option net_rule.
 Variable retr_host : Z -> option host_rule.
 Variable rules : list (rule * Z).
 (* the storage is intact (C11): an index retrieves exactly the rule scanned with it *)
-Hypothesis retr_ok : forall f idx, retr idx = Some f <-> In (RNet f, idx) rules.
-Hypothesis retr_host_ok : forall h idx, retr_host idx = Some h <-> In (RHost h, idx) rules.
+Hypothesis retr_ok : forall f idx, In (RNet f, idx) rules -> retr idx = Some f.
+Hypothesis retr_host_ok : forall h idx, In (RHost h, idx) rules -> retr_host idx = Some h.
 (* the network rules come from the parser *)
 Hypothesis rules_parsed : forall f idx, In (RNet f, idx) rules -> new_network_rule (nr_text f) (nr_list f) = Ok f.
 
@@ -131,8 +131,8 @@ Proof.
       apply hl_of_in in Hin as [Hin Hl]. exists f, idx. split; [exact Hin|]. split; [now apply is_host_level_iff|]. split; assumption.
     + intros (f & idx & Hin & Ha & M & Ht). exists f. split; [|split; assumption]. apply in_map_iff. exists (f, idx).
       split; [reflexivity|]. apply hl_of_in. split; [exact Hin | now apply is_host_level_iff].
-  - intros idx f R [f0 H0]. apply hl_of_in in H0 as [H0 Hl0]. apply retr_ok in H0. rewrite H0 in R. inversion R; subst.
-    apply hl_of_in. split; [now apply retr_ok | exact Hl0].
+  - intros idx f R [f0 H0]. apply hl_of_in in H0 as [H0 Hl0]. rewrite (retr_ok _ _ H0) in R. inversion R; subst.
+    apply hl_of_in. split; [exact H0 | exact Hl0].
   - intros f idx H. apply hl_of_in in H as [H _]. now apply retr_ok.
   - intros f idx H. eapply parsed_pdomains_ok; [apply hl_parsed | exact H].
   - apply parsed_text_coherent. apply hl_parsed.
@@ -164,11 +164,12 @@ Proof.
   destruct (build_dns_tables rules) as [Hh _]. fold e in Hh. rewrite Hh. rewrite in_flat_map. split.
   - intros (idx & Hb & H). destruct (retr_host idx) as [h'|] eqn:R; [|destruct H].
     destruct (host_match h' hostname) eqn:M; [|destruct H]. destruct H as [<-|[]].
-    exists idx. split; [now apply retr_host_ok | exact M].
+    apply bucket_in, host_tbl_in in Hb as (hr & n & Hin & _ & _). rewrite (retr_host_ok _ _ Hin) in R. inversion R; subst.
+    exists idx. split; [exact Hin | exact M].
   - intros (idx & Hin & M). exists idx. split.
     + apply bucket_in. apply host_tbl_in. exists h, hostname. split; [exact Hin|]. split; [|reflexivity].
       unfold host_match in M. apply existsb_exists in M as (n & Hn & He). apply bytes_eqb_eq in He. now subst.
-    + apply retr_host_ok in Hin. rewrite Hin, M. now left.
+    + rewrite (retr_host_ok _ _ Hin), M. now left.
 Qed.
 
 Theorem dns_hosts : hostname <> [] -> dr_network_rule res = None ->
@@ -199,8 +200,8 @@ End C02.
 
 (* the storage is intact (C11) and the network rules come from the parser *)
 Definition storage_intact (retr : Z -> option net_rule) (retr_host : Z -> option host_rule) (rules : list (rule * Z)) : Prop :=
-  (forall f idx, retr idx = Some f <-> In (RNet f, idx) rules) /\
-  (forall h idx, retr_host idx = Some h <-> In (RHost h, idx) rules) /\
+  (forall f idx, In (RNet f, idx) rules -> retr idx = Some f) /\
+  (forall h idx, In (RHost h, idx) rules -> retr_host idx = Some h) /\
   (forall f idx, In (RNet f, idx) rules -> new_network_rule (nr_text f) (nr_list f) = Ok f).
 
 Theorem dns_network_rules' hash psl retr retr_host rules hostname q t :
